@@ -104,6 +104,58 @@ def p1_process_phases(check: Check, rule: str = "P1") -> None:
 
 
 # --------------------------------------------------------------------------------------------- P3
+def _is_weight_product(t: Term, ant_call: Term):
+    """True / False when the normal form of t is / is not weight x antecedent (per branch, under the branch's assumption on the weight);
+    None when t is outside the polynomial model."""
+    from fractions import Fraction
+
+    from ..algebra import Rat
+
+    W, A = Rat.sym("w"), Rat.sym("a")
+
+    def nf(x: Term, wv: Rat):
+        x = strip(x)
+        if x == ant_call:
+            return A
+        if path_of(x) == "self.weight":
+            return wv
+        if x[0] == "const" and isinstance(x[1], (int, float)) and not isinstance(x[1], bool):
+            return Rat.const(Fraction(x[1]))
+        if x[0] == "binop" and x[1] in ("+", "-", "*", "/"):
+            a, b = nf(x[2], wv), nf(x[3], wv)
+            if a is None or b is None:
+                return None
+            return a + b if x[1] == "+" else (a - b if x[1] == "-" else (a * b if x[1] == "*" else a / b))
+        if x[0] == "call" and x[1][0] == "global" and x[1][1] in ("numpy.multiply", "numpy.prod") and len(x[2]) == 2:
+            a, b = nf(x[2][0], wv), nf(x[2][1], wv)
+            return None if a is None or b is None else a * b
+        return None
+
+    def judge(x: Term, wv: Rat):
+        x = strip(x)
+        if x[0] == "ifexp":
+            c = x[1]
+            wc = None
+            if c[0] == "cmp" and c[1] in (("==",), ("!=",)) and any(path_of(strip(q)) == "self.weight" for q in c[2]):
+                k = [const_value(q) for q in c[2] if path_of(strip(q)) != "self.weight"]
+                if k and isinstance(k[0], (int, float)):
+                    wc = Rat.const(Fraction(k[0]))
+            eq_branch, ne_branch = (x[2], x[3]) if c[0] == "cmp" and c[1] == ("==",) else (x[3], x[2])
+            if wc is not None:
+                r1, r2 = judge(eq_branch, wc), judge(ne_branch, wv)
+            else:
+                r1, r2 = judge(x[2], wv), judge(x[3], wv)
+            if r1 is False or r2 is False:
+                return False
+            return None if r1 is None or r2 is None else True
+        got = nf(x, wv)
+        if got is None:
+            return None
+        return got.equals(wv * A)
+
+    return judge(t, W)
+
+
 def p3_weight(check: Check, rule: str = "P3") -> None:
     p = check.program
     fn = p.func("Rule.activate_with")
@@ -121,10 +173,13 @@ def p3_weight(check: Check, rule: str = "P3") -> None:
     ant_calls = [c for c in walk(t) if c[0] == "call" and c[1] == ("attr", ("attr", SELF, "antecedent"), "activation_degree")]
     uses_weight = any(path_of(s) == "self.weight" for s in walk(t))
     product = t[0] == "binop" and t[1] == "*" and {path_of(strip(t[2])) == "self.weight", path_of(strip(t[3])) == "self.weight"} == {True, False}
-    check.require(uses_weight and bool(ant_calls), rule, "Rule.activate_with/weight",
-                  "activation_degree = weight x antecedent activation" if uses_weight and ant_calls else
-                  f"stored degree is {show(t)}: " + ("the rule weight is not a factor" if not uses_weight else "the antecedent is not evaluated"),
-                  loc(fn, n), {"expr": show(t), "is_product": product})
+    is_prod = bool(ant_calls) and _is_weight_product(t, ant_calls[0])
+    check.require(uses_weight and bool(ant_calls) and is_prod is not False, rule, "Rule.activate_with/weight",
+                  "activation_degree = weight x antecedent activation" + ("" if is_prod else " (dependence only: the expression is outside the normal-form model)")
+                  if uses_weight and ant_calls and is_prod is not False else
+                  f"stored degree is {show(t)}: " + ("the rule weight is not a factor" if not uses_weight else
+                                                     "the antecedent is not evaluated" if not ant_calls else "this is not the product weight x antecedent"),
+                  loc(fn, n), {"expr": show(t), "is_product": is_prod})
     if ant_calls:
         args = ant_calls[0][2]
         ok = len(args) >= 2 and args[0] == ("param", params[1]) and args[1] == ("param", params[2])
@@ -330,12 +385,22 @@ def modify_rules(check: Check, p5: bool = True, l1: bool = True, h1: bool = True
         bad = sorted({(name, n.lineno, d.node.lineno) for name, n, d in carried if (name, n.id) in slice_uses})
         names = sorted({b[0] for b in bad})
         if bad:
-            for nm in names:
-                rows = [b for b in bad if b[0] == nm]
-                check.violation("L1", f"Consequent.modify/{nm}",
-                                f"the degree given to a conclusion reads `{nm}` as modified by the hedges of an earlier "
-                                f"conclusion (defined at line {rows[0][2]} in a previous iteration, read at line {rows[0][1]}): "
-                                "conclusions are not independent", loc(fn, head), {"carried": rows})
+            # keyed by the role of what is carried, not by a local's name: the degree the method was given (the parameter itself, or a
+            # local initialised from it before the loop) re-assigned across conclusions - or something else carried into the degree
+            it_nodes = [q for q, _ in head.pred if q.kind == "iter"]
+
+            def is_given_degree(nm: str) -> bool:
+                if nm == deg_param:
+                    return True
+                outside = [d for d in cfg.defs_reaching(nm, it_nodes[0] if it_nodes else head) if d.node not in body]
+                return bool(outside) and all(d.value is not None and r.term(d.value, d.node) == ("param", deg_param) for d in outside)
+
+            via_param = all(is_given_degree(nm) for nm in names)
+            rows = list(bad)
+            check.violation("L1", "Consequent.modify/degree-carried" if via_param else "Consequent.modify/carried-through:" + "+".join(names),
+                            f"the degree given to a conclusion reads `{'`, `'.join(names)}` as modified by the hedges of an earlier "
+                            f"conclusion (defined at line {rows[0][2]} in a previous iteration, read at line {rows[0][1]}): "
+                            "conclusions are not independent", loc(fn, head), {"carried": rows, "variables": names})
         else:
             check.ok("L1", "Consequent.modify/independent", "the degree of each conclusion has no loop-carried definition "
                      "with respect to the loop over conclusions", loc(fn, head))
